@@ -146,7 +146,7 @@ class InterpBase:
         if h == "const":
             return t[1] is not None
         if h in ("inst", "enum", "cls", "tuple", "list", "set", "dict", "fn", "closure", "lambda", "str", "bin",
-                 "slice", "fmt", "comp", "gen", "given"):
+                 "slice", "fmt", "comp", "gen", "given", "h5wrap", "rawres", "lres"):
             return True
         tys = self.ty(v)
         if tys and all(x[0] in ("obj", "cls", "h5", "mod") for x in tys) and h in ("lres", "self", "new"):
@@ -186,6 +186,12 @@ class InterpBase:
             return self.compare(t[1], V(t[2]), V(t[3]))
         if h == "isinst":
             return self.decide(("isinst", t[1], t[2]))
+        if h == "mcall" and t[1] == "format" and t[2][0] == "const" and isinstance(t[2][1], str):
+            import re as _re
+            if _re.sub(r"\{[^}]*\}", "", t[2][1]):
+                return True         # a template with literal text never formats to the empty string
+        if h == "fmt" and any(x[0] == "const" and x[1] for x in t[1]):
+            return True
         if ("isnone", t) in self.facts and self.facts[("isnone", t)]:
             return False
         if t in self.valof:
